@@ -32,6 +32,17 @@ CHECKS = {
             'faulty string must raise the documented exception type (never return a graph); the fault-free string must '
             'be accepted; the reference interpreter independently confirms invalidity of the faulty base graph.',
             '4/C20', ''),
+    'C01': ('property-based testing: model-by-construction (molecule x partition x rendering) vs resolved graph, plus metamorphic twin (uncut molecule, from_graph constructor)',
+            'A molecule model is generated first, cut at random, every cut written as a uniquely labelled descriptor pair, '
+            'rendered by own SMILES/base-graph writers; the resolved fine graph must be isomorphic to the model (element, '
+            'charge, H count from an independent valence table, bond orders incl. 1.5) and to the resolution of the uncut '
+            'molecule; the base graph is also passed as nx.Graph with shuffled insertion order.',
+            '4/C01', 'pysmiles is part of the code path under test (cgsmiles delegates SMILES parsing to it). '),
+    'C13': ('property-based testing: recorded insertion of descriptors/annotations/slash marks into clean text, exact-equality oracle; exhaustive insertion positions for small texts',
+            'Clean fragment texts (SMILES and coarse) are rendered token by token; descriptors, annotations and slash '
+            'marks are inserted and recorded by the generator; strip_bonding_descriptors must return exactly the clean '
+            'text and exactly the recorded maps. Exhaustive sub-run: every insertion slot x descriptor form for ten small texts.',
+            '4/C13', ''),
 }
 
 NOT_BUILT = {}
